@@ -78,6 +78,10 @@ def fd_steps():
                 calls.clear()
                 w = {"handler": kind, "state": state, "event": ev}
                 applicable = True
+                # the delay and the reply time are settings that may change at run time (setter, S2F15 on ECID 1): every timer armed
+                # from now on must use the values configured NOW ("retried after the configured establish-communications delay")
+                handler.settings.establish_communication_timeout = 7.25
+                handler.settings.timeouts.t3 = 3.5
                 if ev.startswith("s1f14"):
                     sysb = outstanding[-1]["system"] if outstanding else 0x5555
                     conn.feed(H.frame(0, sysb, 1, 14, False, S1F14_OK if ev.endswith("0") else S1F14_DENY))
@@ -119,8 +123,8 @@ def fd_steps():
                 if state == "WAIT_DELAY" and ev == "delay-expiry":
                     if now != "WAIT_CRA" or len(new13) != 1:
                         fails.add("retry-after-delay", dict(w, now=now, s1f13_sent=len(new13)), "after the delay the attempt must be retried: WAIT_CRA and exactly one new S1F13")
-                    elif not [t for t in timers() if t.function.__name__ == "_on_wait_cra_timeout"]:
-                        fails.add("reply-timer-armed", dict(w), "no reply timer running in WAIT_CRA after the retry")
+                    elif not [t for t in timers() if t.function.__name__ == "_on_wait_cra_timeout" and t.interval == handler.settings.timeouts.t3]:
+                        fails.add("reply-timer-armed", dict(w), "no reply timer with the configured T3 running in WAIT_CRA after the retry")
                 # timers: exactly the timer of the current state is running (a timer that survives its state fires into a later
                 # attempt and shortens its delay / reply time)
                 live = sorted(t.function.__name__ for t in H.VirtualTimer.registry
